@@ -100,9 +100,10 @@ func (o op) String() string {
 // model state: sequenced entry ids in order, queued entry ids in order
 type mstate struct {
 	seq, queue []int
+	resigned   int // how often the backend re-published the current tree with a later root timestamp
 }
 
-func (s mstate) key() string { return fmt.Sprint(s.seq, "|", s.queue) }
+func (s mstate) key() string { return fmt.Sprint(s.seq, "|", s.queue, "|", s.resigned) }
 func (s mstate) has(e int) bool {
 	for _, x := range append(append([]int{}, s.seq...), s.queue...) {
 		if x == e {
@@ -112,8 +113,12 @@ func (s mstate) has(e int) bool {
 	return false
 }
 func (s mstate) apply(o op) mstate {
-	n := mstate{append([]int{}, s.seq...), append([]int{}, s.queue...)}
+	n := mstate{append([]int{}, s.seq...), append([]int{}, s.queue...), s.resigned}
 	switch o.Kind {
+	case "republish":
+		if n.resigned < 1 && len(n.seq) > 0 {
+			n.resigned++
+		}
 	case "add":
 		if !n.has(o.Entry) {
 			n.queue = append(n.queue, o.Entry)
@@ -122,8 +127,12 @@ func (s mstate) apply(o op) mstate {
 		if len(n.queue) > 0 {
 			n.seq = append(n.seq, n.queue[0])
 			n.queue = n.queue[1:]
+			n.resigned = 0
 		}
 	case "seqall":
+		if len(n.queue) > 0 {
+			n.resigned = 0
+		}
 		n.seq = append(n.seq, n.queue...)
 		n.queue = nil
 	}
@@ -220,6 +229,13 @@ func (c *checker) apply(in *inst, s mstate, o op, path []op) {
 			}
 		} else {
 			in.scts[o.Entry] = sct
+		}
+	case "republish":
+		// the signer re-publishes the same tree with a later timestamp (Trillian does this
+		// periodically); a monitor polled get-sth just before
+		in.f.Get(ct.GetSTHPath)
+		if s.resigned < 1 && len(s.seq) > 0 {
+			in.back.SetRootTime(rootNanos(len(s.seq)) + 5e9 + 1)
 		}
 	case "seq1":
 		// a monitor polls get-sth before every sequencing step, so the front end's STH
@@ -520,7 +536,7 @@ func TestCheck(t *testing.T) {
 	for e := range entries {
 		ops = append(ops, op{Kind: "add", Entry: e})
 	}
-	ops = append(ops, op{Kind: "seq1"}, op{Kind: "seqall"})
+	ops = append(ops, op{Kind: "seq1"}, op{Kind: "seqall"}, op{Kind: "republish"})
 	r.Rule(fmt.Sprintf("explicit-state BFS over histories: state = (sequenced entries in order, queued entries in order) of the reference backend behind a real front end; operations = add-chain/add-pre-chain of 4 entries (cert root-omitted, cert root-included, precert, pre-issued precert; fresh or duplicate at a later clock), sequencing steps of 1 or all, root timestamps with sub-millisecond nanos; states with up to %d sequenced entries; in every state every read endpoint with every in-range (and first out-of-range) parameter combination, for a P-256 and an RSA log key. Each state is built by replaying its shortest path on a fresh instance; the same state reached by a different last operation must serve identical bytes", maxSeq))
 	r.Assume("the reference backend (ref/reflog) stands for Trillian: de-duplication by identity hash echoing the stored leaf, explicit sequencing, RFC 6962 proofs from ref/merkle",
 		"the front end keeps no state that may influence a response except the STH signature cache, which is exercised by repeating get-sth")
@@ -704,13 +720,16 @@ func backendShape(in *inst) string {
 	for _, lv := range in.back.QueuedValues() {
 		s.queue = append(s.queue, id(lv))
 	}
+	if in.back.Size() > 0 && in.back.RootNanos() != rootNanos(in.back.Size()) {
+		s.resigned = 1
+	}
 	return s.key()
 }
 
 // altPath builds a different operation path to the same state: entries are added
 // one at a time and sequenced one at a time (with duplicate submissions in between).
 func altPath(s mstate) []op {
-	if len(s.seq)+len(s.queue) == 0 {
+	if len(s.seq)+len(s.queue) == 0 || s.resigned > 0 {
 		return nil
 	}
 	var p []op
